@@ -11,10 +11,13 @@ which the harness reports as a correspondence failure):
 Proved here for every heap, root and mode: soundness of every reported pair; for the
 un-memoized traversal completeness and no duplicate path; for the memoized traversal exactly
 one report per reachable mutable object; the all-paths query is exactly the set of reaching paths.
-Carried by the correspondence check only: the identity rebuild (`map_children`) and the cycle error of `iterate`
+Also proved: the identity rebuild (`map_children` with the identity function) yields a
+structure of the same types, path for path equal, with the same sharing.
+Carried by the correspondence check only: the cycle error of `iterate`
 (cyclic structures are outside well-formed heaps; `build`'s cycle error is in the model).
 -/
 import FiddleModel.Lemmas.Traverse
+import FiddleModel.Lemmas.RebuildL
 
 namespace Fiddle
 
@@ -96,6 +99,55 @@ theorem C08_all_paths_nodup (h : Heap) (hd : h.PathsDistinct) (root : GVal) (i :
         · simpa [List.filterMap_cons, List.filter_cons, e] using ih
   rw [e]
   exact (List.Nodup.sublist (List.Sublist.map _ List.filter_sublist) hn)
+
+/-! ## Identity rebuild (`MemoizedTraversal.run(lambda v, s: s.map_children(v), x)`) -/
+
+private theorem rebuild_inv {h : Heap} (wf : h.WellFormed) {root r : GVal} {st : RbSt}
+    (hb : rebuild h root = .ok (r, st)) : st.Inv h ∧ r = imageOf st.memo root ∧ Memoized' st root := by
+  obtain ⟨s, m⟩ := rebuildVal_step h wf _ root {} r st hb (RbSt.inv_init h)
+  exact ⟨s.inv, m.1, m.2⟩
+
+/-- Rebuilding through an identity traversal gives a structure of the same types: every new
+    object is the copy of exactly one original object, with the same kind, type / callable,
+    tags and keys ... -/
+theorem C08_rebuild_same_types (h : Heap) (wf : h.WellFormed) (root r : GVal) (st : RbSt)
+    (hb : rebuild h root = .ok (r, st)) (j : Nat) (o' : GObj) (hj : st.out[j]? = some o') :
+    ∃ i o, rbGet st.memo i = some j ∧ h[i]? = some o ∧ o'.kind = o.kind ∧ o'.ty = o.ty ∧
+      o'.bk = o.bk ∧ o'.tags = o.tags ∧ o'.children.map (·.1) = o.children.map (·.1) := by
+  obtain ⟨i, o, hij, ho, rfl⟩ := rebuilt_out_object h st (rebuild_inv wf hb).1 j o' hj
+  refine ⟨i, o, hij, ho, rfl, rfl, rfl, rfl, ?_⟩
+  simp [copyOf, zip_map_snd, List.map_map, Function.comp]
+
+/-- ... an equal structure: following any path in the result leads to the copy of what the
+    same path leads to in the original ... -/
+theorem C08_rebuild_faithful (h : Heap) (wf : h.WellFormed) (root r : GVal) (st : RbSt)
+    (hb : rebuild h root = .ok (r, st)) (p : Path) :
+    followPath st.out r p = (followPath h root p).map (imageOf st.memo) := by
+  obtain ⟨hi, hr, hm⟩ := rebuild_inv wf hb
+  rw [hr]; exact followPath_rebuilt h st hi p root hm
+
+/-- ... with the same sharing: two paths meet in the result exactly when they meet in the
+    original. -/
+theorem C08_rebuild_same_sharing (h : Heap) (wf : h.WellFormed) (root r : GVal) (st : RbSt)
+    (hb : rebuild h root = .ok (r, st)) (p q : Path) :
+    followPath st.out r p = followPath st.out r q ↔ followPath h root p = followPath h root q := by
+  obtain ⟨hi, _, hm⟩ := rebuild_inv wf hb
+  rw [C08_rebuild_faithful h wf root r st hb, C08_rebuild_faithful h wf root r st hb]
+  constructor
+  · intro e
+    cases hp : followPath h root p with
+    | none =>
+      cases hq : followPath h root q with
+      | none => rfl
+      | some w => simp [hp, hq] at e
+    | some v =>
+      cases hq : followPath h root q with
+      | none => simp [hp, hq] at e
+      | some w =>
+        simp only [hp, hq, Option.map_some, Option.some.injEq] at e
+        rw [imageOf_injective h st hi v w (followPath_memoized h st hi p root v hm hp)
+          (followPath_memoized h st hi q root w hm hq) e]
+  · intro e; rw [e]
 
 /-! ## Non-vacuity: the hypotheses hold of a diamond with a shared dict, and the traversal of it
     is non-trivial. -/
